@@ -2,7 +2,10 @@
 package c12
 
 import (
+	"bytes"
+	"compress/gzip"
 	"fmt"
+	"math/rand"
 	"os"
 	"sort"
 	"strings"
@@ -237,7 +240,244 @@ func acrCase(c *core.Ctx) {
 	if g.Chance(0.05) {
 		algo = 3
 	}
+	if g.Chance(0.06) { // look-alike inner names: duplicates, names that look like the numeric keys of unnamed nodes, a tip's name
+		i := 0
+		var rec func(x *core.N)
+		rec = func(x *core.N) {
+			i++
+			if len(x.Kids) > 0 {
+				switch g.Intn(4) {
+				case 0:
+					x.Name = "dup"
+				case 1:
+					x.Name = fmt.Sprint(g.Intn(n.NNodes()))
+				case 2:
+					x.Name = "t0"
+				}
+			}
+			for _, k := range x.Kids {
+				rec(k)
+			}
+		}
+		rec(n)
+	}
 	doAcr(c, n, tips, algo)
+}
+
+// ---- ACR with random resolution ----
+
+// stream returns the first n Int31() values of a source seeded like rand.Seed(seed).
+func stream(seed int64, n int) []int {
+	r := rand.New(rand.NewSource(seed))
+	out := make([]int, n)
+	for i := range out {
+		out[i] = int(r.Int31())
+	}
+	return out
+}
+
+func doAcrR(c *core.Ctx, n *core.N, tips map[string]string, algo int, seed int64) {
+	keys, vals := sortedMap(tips)
+	in := []string{n.Dump(), core.StrList(keys), core.StrList(vals), algoNames[algo], fmt.Sprint(seed)}
+	t, err := core.Build(n)
+	if err != nil {
+		panic(err)
+	}
+	var nsteps int
+	var rerr error
+	var next int32
+	if p, msg := core.Safe(func() {
+		rand.Seed(seed)
+		_, nsteps, rerr = acr.ParsimonyAcr(t, copyMap(tips), algo, true)
+		next = rand.Int31()
+	}); p {
+		c.Emit("C12.acrr", append(in, "panic:"+core.Escape(msg), "", "", "", "")...)
+		return
+	}
+	if rerr != nil {
+		c.Emit("C12.acrr", append(in, "err", "", "", "", "")...)
+		return
+	}
+	after, wf := core.Alpha(t)
+	if !wf.OK() {
+		c.Emit("C12.acrr", append(in, "panic:malformed", "", "", "", "")...)
+		return
+	}
+	c.Emit("C12.acrr", append(in, "ok", fmt.Sprint(nsteps), after.Dump(), fmt.Sprint(next),
+		core.IntList(stream(seed, n.NNodes()+8)))...)
+}
+
+func acrRCase(c *core.Ctx) {
+	g := c.G
+	n, _ := g.Tree(treeOpts(g))
+	k := 2 + g.Intn(4)
+	perm := g.R.Perm(len(statePool))
+	states := make([]string, k)
+	for i := range states {
+		states[i] = statePool[perm[i]]
+	}
+	tips := assign(g, n.TipNames(), states)
+	doAcrR(c, n, tips, g.Intn(3), int64(g.Intn(1<<30)))
+}
+
+func doAsrR(c *core.Ctx, n *core.N, names, seqs []string, algo int, seed int64) {
+	in := []string{n.Dump(), core.StrList(names), core.StrList(seqs), algoNames[algo], fmt.Sprint(seed)}
+	fail := func(o string) { c.Emit("C12.asrr", append(in, o, "", "", "", "")...) }
+	t, err := core.Build(n)
+	if err != nil {
+		panic(err)
+	}
+	a, err := mkAlign(names, seqs, false)
+	if err != nil {
+		fail("err")
+		return
+	}
+	var nsteps []int
+	var rerr error
+	var next int32
+	if p, msg := core.Safe(func() {
+		rand.Seed(seed)
+		nsteps, rerr = asr.ParsimonyAsr(t, a, algo, true)
+		next = rand.Int31()
+	}); p {
+		fail("panic:" + core.Escape(msg))
+		return
+	}
+	if rerr != nil {
+		fail("err")
+		return
+	}
+	after, wf := core.Alpha(t)
+	if !wf.OK() {
+		fail("panic:malformed")
+		return
+	}
+	L := 0
+	if len(seqs) > 0 {
+		L = len(seqs[0])
+	}
+	c.Emit("C12.asrr", append(in, "ok", core.IntList(nsteps), after.Dump(), fmt.Sprint(next),
+		core.IntList(stream(seed, n.NNodes()*L+8)))...)
+}
+
+func nucSeqs(g *core.G, nseq int) []string {
+	L := 1 + g.Intn(4)
+	amb := g.Chance(0.4)
+	seqs := make([]string, nseq)
+	for i := range seqs {
+		b := make([]byte, L)
+		for j := range b {
+			b[j] = plainChars[g.Intn(1+g.Intn(4))]
+			if g.Chance(0.08) {
+				b[j] = '-'
+			}
+			if amb && g.Chance(0.2) {
+				b[j] = iupacChars[g.Intn(len(iupacChars))]
+			}
+		}
+		seqs[i] = string(b)
+	}
+	return seqs
+}
+
+func asrRCase(c *core.Ctx) {
+	g := c.G
+	o := treeOpts(g)
+	if o.MaxTips > 16 {
+		o.MaxTips = 16
+	}
+	n, _ := g.Tree(o)
+	names := n.TipNames()
+	sort.Strings(names)
+	doAsrR(c, n, names, nucSeqs(g, len(names)), g.Intn(3), int64(g.Intn(1<<30)))
+}
+
+// the same through the binary: --random-resolve --seed S
+func cliAcrR(c *core.Ctx, n *core.N, tips map[string]string, algo int, seed int64) {
+	keys, vals := sortedMap(tips)
+	in := []string{n.Dump(), core.StrList(keys), core.StrList(vals), algoNames[algo], fmt.Sprint(seed)}
+	fail := func(o string) { c.Emit("C12.acrrcli", append(in, o, "", "", "", "")...) }
+	t, err := core.Build(n)
+	if err != nil {
+		panic(err)
+	}
+	var sb strings.Builder
+	for i, k := range keys {
+		sb.WriteString(k + "\t" + vals[i] + "\n")
+	}
+	treef, statef, outt, outs := c.TmpFile(t.Newick()+"\n"), c.TmpFile(sb.String()), c.TmpFile(""), c.TmpFile("")
+	defer func() {
+		for _, f := range []string{treef, statef, outt, outs} {
+			os.Remove(f)
+		}
+	}()
+	r := c.RunCLI("", 30*time.Second, "acr", "-i", treef, "--states", statef, "--algo", algoNames[algo],
+		"-o", outt, "--out-steps", outs, "--random-resolve", "--seed", fmt.Sprint(seed))
+	steps := strings.TrimSpace(strings.TrimPrefix(strings.TrimSpace(readFile(outs)), "steps"))
+	dump, ok := parseOutTree(readFile(outt))
+	if r.Timeout || r.Exit != 0 || steps == "" || !ok {
+		fail("err")
+		return
+	}
+	c.Emit("C12.acrrcli", append(in, "ok", steps, dump, "", core.IntList(stream(seed, n.NNodes()+8)))...)
+}
+
+func cliAsrR(c *core.Ctx, n *core.N, names, seqs []string, algo int, seed int64) {
+	in := []string{n.Dump(), core.StrList(names), core.StrList(seqs), algoNames[algo], fmt.Sprint(seed)}
+	fail := func(o string) { c.Emit("C12.asrrcli", append(in, o, "", "", "", "")...) }
+	t, err := core.Build(n)
+	if err != nil {
+		panic(err)
+	}
+	var sb strings.Builder
+	for i, nm := range names {
+		fmt.Fprintf(&sb, ">%s\n%s\n", nm, seqs[i])
+	}
+	treef, alnf, outt, outl := c.TmpFile(t.Newick()+"\n"), c.TmpFile(sb.String()), c.TmpFile(""), c.TmpFile("")
+	defer func() {
+		for _, f := range []string{treef, alnf, outt, outl} {
+			os.Remove(f)
+		}
+	}()
+	r := c.RunCLI("", 30*time.Second, "asr", "-i", treef, "-a", alnf, "--algo", algoNames[algo],
+		"-o", outt, "--log", outl, "--random-resolve", "--seed", fmt.Sprint(seed))
+	logl := strings.TrimSpace(readFile(outl))
+	dump, ok := parseOutTree(readFile(outt))
+	if r.Timeout || r.Exit != 0 || !strings.HasPrefix(logl, "steps") || !ok {
+		fail("err")
+		return
+	}
+	var steps strings.Builder
+	for _, x := range strings.Fields(strings.TrimPrefix(logl, "steps")) {
+		steps.WriteString(x + ",")
+	}
+	L := 0
+	if len(seqs) > 0 {
+		L = len(seqs[0])
+	}
+	c.Emit("C12.asrrcli", append(in, "ok", steps.String(), dump, "", core.IntList(stream(seed, n.NNodes()*L+8)))...)
+}
+
+func cliRCase(c *core.Ctx, i int) {
+	g := c.G
+	o := treeOpts(g)
+	o.Singles = 0
+	o.MinTips, o.MaxTips = 5, 14
+	n, _ := g.Tree(o)
+	seed := int64(g.Intn(1 << 30))
+	if i%2 == 0 {
+		k := 2 + g.Intn(3)
+		perm := g.R.Perm(len(statePool))
+		states := make([]string, k)
+		for j := range states {
+			states[j] = statePool[perm[j]]
+		}
+		cliAcrR(c, n, assign(g, n.TipNames(), states), g.Intn(3), seed)
+		return
+	}
+	names := n.TipNames()
+	sort.Strings(names)
+	cliAsrR(c, n, names, nucSeqs(g, len(names)), g.Intn(3), seed)
 }
 
 // ---- ASR ----
@@ -253,10 +493,16 @@ func columnMap(names, seqs []string, j int) map[string]string {
 	return m
 }
 
-func isPlain(seqs []string) bool {
+const aaChars = "ARNDCQEGHILKMFPSTWYV"
+
+func isPlain(seqs []string, prot bool) bool {
+	ok := "ACGT-"
+	if prot {
+		ok = aaChars + "-*"
+	}
 	for _, s := range seqs {
 		for i := 0; i < len(s); i++ {
-			if !strings.ContainsRune("ACGT-", rune(s[i])) {
+			if !strings.ContainsRune(ok, rune(s[i])) {
 				return false
 			}
 		}
@@ -264,8 +510,11 @@ func isPlain(seqs []string) bool {
 	return true
 }
 
-func mkAlign(names, seqs []string) (align.Alignment, error) {
+func mkAlign(names, seqs []string, prot bool) (align.Alignment, error) {
 	a := align.NewAlign(align.NUCLEOTIDS)
+	if prot {
+		a = align.NewAlign(align.AMINOACIDS)
+	}
 	for i, nm := range names {
 		if err := a.AddSequence(nm, seqs[i], ""); err != nil {
 			return nil, err
@@ -285,16 +534,20 @@ func nodeComments(n *core.N, out *[]string) {
 	}
 }
 
-func doAsr(c *core.Ctx, n *core.N, names, seqs []string, algo int) {
+func doAsr(c *core.Ctx, n *core.N, names, seqs []string, algo int, prot bool) {
 	in := []string{n.Dump(), core.StrList(names), core.StrList(seqs), algoNames[algo]}
+	op := "C12.asr"
+	if prot {
+		op = "C12.asrp"
+	}
 	fail := func(outcome string) {
-		c.Emit("C12.asr", append(in, outcome, "", "", "", "")...)
+		c.Emit(op, append(in, outcome, "", "", "", "")...)
 	}
 	t, err := core.Build(n)
 	if err != nil {
 		panic(err)
 	}
-	a, err := mkAlign(names, seqs)
+	a, err := mkAlign(names, seqs, prot)
 	if err != nil {
 		fail("err")
 		return
@@ -321,7 +574,7 @@ func doAsr(c *core.Ctx, n *core.N, names, seqs []string, algo int) {
 			panic(err)
 		}
 		var s2 []int
-		a2, _ := mkAlign(names, seqs)
+		a2, _ := mkAlign(names, seqs, prot)
 		core.Safe(func() {
 			var e2 error
 			s2, e2 = asr.ParsimonyAsr(t2, a2, algo, false)
@@ -334,7 +587,7 @@ func doAsr(c *core.Ctx, n *core.N, names, seqs []string, algo int) {
 	}
 	// site by site: the single-character implementation on every column
 	var cols [][]string
-	if isPlain(seqs) && len(seqs) > 0 {
+	if isPlain(seqs, prot) && len(seqs) > 0 {
 		for j := 0; j < len(seqs[0]); j++ {
 			t3, err := core.Build(n)
 			if err != nil {
@@ -352,7 +605,7 @@ func doAsr(c *core.Ctx, n *core.N, names, seqs []string, algo int) {
 			cols = append(cols, col)
 		}
 	}
-	c.Emit("C12.asr", append(in, "ok", core.IntList(nsteps), after.Dump(), rr.String(), core.StrLists(cols))...)
+	c.Emit(op, append(in, "ok", core.IntList(nsteps), after.Dump(), rr.String(), core.StrLists(cols))...)
 }
 
 func asrCase(c *core.Ctx) {
@@ -371,6 +624,10 @@ func asrCase(c *core.Ctx) {
 	n := drawTree(c, o)
 	names := n.TipNames()
 	sort.Strings(names)
+	if g.Chance(0.25) {
+		protCase(c, n, names)
+		return
+	}
 	L := 1 + g.Intn(5)
 	mode := g.Intn(4) // 0 plain, 1 plain with gaps, 2-3 IUPAC
 	if mode == 3 {
@@ -404,13 +661,77 @@ func asrCase(c *core.Ctx) {
 		}
 		seqs[i] = string(b)
 	}
+	if g.Chance(0.05) { // known finding F59: characters goalign accepts but align.IupacCode does not know
+		const odd = "acgtn?XU."
+		for i := range seqs {
+			b := []byte(seqs[i])
+			for j := range b {
+				if g.Chance(0.15) {
+					b[j] = odd[g.Intn(len(odd))]
+				}
+			}
+			seqs[i] = string(b)
+		}
+	}
 	if g.Chance(0.04) && len(names) > 0 {
 		i := g.Intn(len(names))
 		names = append(names[:i:i], names[i+1:]...)
 		seqs = append(seqs[:i:i], seqs[i+1:]...)
 	}
 	algo := g.Intn(3)
-	doAsr(c, n, names, seqs, algo)
+	doAsr(c, n, names, seqs, algo, false)
+}
+
+// protSeqs draws a protein alignment: few amino acids per column, clustered, with gaps,
+// stop codons and (mode 2) the "any amino acid" code X.
+func protSeqs(g *core.G, nseq int, detectable bool) []string {
+	L := 1 + g.Intn(4)
+	mode := g.Intn(3)
+	cols := make([][]byte, L)
+	for j := range cols {
+		pool := aaChars
+		if j == 0 && detectable {
+			pool = "QEILFP" // letters that make goalign's reader choose the amino-acid alphabet
+		}
+		nst := 1 + g.Intn(5)
+		st := make([]byte, nst)
+		for i := range st {
+			st[i] = pool[g.Intn(len(pool))]
+		}
+		col := make([]byte, nseq)
+		prev := st[g.Intn(nst)]
+		clustered := g.Chance(0.5)
+		for i := range col {
+			if !clustered || g.Chance(0.4) {
+				prev = st[g.Intn(nst)]
+			}
+			col[i] = prev
+			if mode >= 1 && g.Chance(0.1) {
+				col[i] = '-'
+			}
+			if mode >= 1 && g.Chance(0.03) {
+				col[i] = '*'
+			}
+			if mode == 2 && g.Chance(0.2) {
+				col[i] = 'X'
+			}
+		}
+		cols[j] = col
+	}
+	seqs := make([]string, nseq)
+	for i := range seqs {
+		b := make([]byte, L)
+		for j := range b {
+			b[j] = cols[j][i]
+		}
+		seqs[i] = string(b)
+	}
+	return seqs
+}
+
+func protCase(c *core.Ctx, n *core.N, names []string) {
+	seqs := protSeqs(c.G, len(names), false)
+	doAsr(c, n, names, seqs, c.G.Intn(3), true)
 }
 
 // ---- CLI tier: the gotree binary built from the working tree ----
@@ -496,9 +817,13 @@ func cliAcr(c *core.Ctx, n *core.N, tips map[string]string, algo int) {
 	c.Emit("C12.acrcli", append(in, "ok", steps, dump, core.StrList(mk), core.StrList(mv), "", "")...)
 }
 
-func cliAsr(c *core.Ctx, n *core.N, names, seqs []string, algo int, phylip bool) {
+func cliAsr(c *core.Ctx, n *core.N, names, seqs []string, algo int, phylip bool, prot bool) {
 	in := []string{n.Dump(), core.StrList(names), core.StrList(seqs), algoNames[algo]}
-	fail := func(outcome string) { c.Emit("C12.asrcli", append(in, outcome, "", "", "", "")...) }
+	op := "C12.asrcli"
+	if prot {
+		op = "C12.asrpcli"
+	}
+	fail := func(outcome string) { c.Emit(op, append(in, outcome, "", "", "", "")...) }
 	t, err := core.Build(n)
 	if err != nil {
 		panic(err)
@@ -553,7 +878,7 @@ func cliAsr(c *core.Ctx, n *core.N, names, seqs []string, algo int, phylip bool)
 		fail("panic:unreadable-output-tree")
 		return
 	}
-	c.Emit("C12.asrcli", append(in, "ok", steps.String(), dump, "", "")...)
+	c.Emit(op, append(in, "ok", steps.String(), dump, "", "")...)
 }
 
 func cliCase(c *core.Ctx, i int) {
@@ -580,6 +905,10 @@ func cliCase(c *core.Ctx, i int) {
 	}
 	names := n.TipNames()
 	sort.Strings(names)
+	if i%8 == 3 {
+		cliAsr(c, n, names, protSeqs(g, len(names), true), g.Intn(3), g.Chance(0.3), true)
+		return
+	}
 	L := 1 + g.Intn(4)
 	seqs := make([]string, len(names))
 	amb := g.Chance(0.5)
@@ -596,7 +925,379 @@ func cliCase(c *core.Ctx, i int) {
 		}
 		seqs[i] = string(b)
 	}
-	cliAsr(c, n, names, seqs, g.Intn(3), g.Chance(0.3))
+	cliAsr(c, n, names, seqs, g.Intn(3), g.Chance(0.3), false)
+}
+
+// ---- CLI tier, every option of `gotree acr` / `gotree asr` ----
+
+func gz(s string) string {
+	var b bytes.Buffer
+	w := gzip.NewWriter(&b)
+	w.Write([]byte(s))
+	w.Close()
+	return b.String()
+}
+
+func has(opts, o string) bool { return strings.Contains(","+opts+",", ","+o+",") }
+
+// splitOut separates tree lines from the other lines of a stream that may hold both.
+func splitOut(s string) (trees, other string) {
+	for _, l := range strings.SplitAfter(s, "\n") {
+		if l == "" {
+			continue
+		}
+		if strings.HasPrefix(l, "(") {
+			trees += l
+		} else {
+			other += l
+		}
+	}
+	return
+}
+
+func dumpsOfNewicks(s string) (string, bool) {
+	var b strings.Builder
+	for _, l := range strings.Split(strings.TrimRight(s, "\n"), "\n") {
+		if l == "" {
+			continue
+		}
+		d, ok := parseOutTree(l)
+		if !ok {
+			return "", false
+		}
+		b.WriteString(d)
+		b.WriteByte('|')
+	}
+	return b.String(), true
+}
+
+// cliAcrFull runs `gotree acr` with the options named in opts:
+//   states-stdin | tree-stdin (at most one), gz, o-file, steps-file, states-out
+func cliAcrFull(c *core.Ctx, ns []*core.N, lines []string, algoS, opts string) {
+	in := []string{core.Dumps(ns), core.StrList(lines), core.Escape(algoS), opts}
+	fail := func(outcome string) { c.Emit("C12.acrfull", append(in, outcome, "", "", "")...) }
+	var nw strings.Builder
+	for _, n := range ns {
+		t, err := core.Build(n)
+		if err != nil {
+			panic(err)
+		}
+		nw.WriteString(t.Newick() + "\n")
+	}
+	statesTxt := strings.Join(lines, "\n")
+	if len(lines) > 0 && !has(opts, "no-final-newline") {
+		statesTxt += "\n"
+	}
+	var files []string
+	tmp := func(content string) string {
+		f := c.TmpFile(content)
+		files = append(files, f)
+		return f
+	}
+	defer func() {
+		for _, f := range files {
+			os.Remove(f)
+			os.Remove(f + ".gz")
+		}
+	}()
+	args := []string{"acr", "--algo", algoS}
+	stdin := ""
+	if has(opts, "states-stdin") {
+		stdin = statesTxt // --states omitted: the default is stdin
+	} else if has(opts, "gz") {
+		f := tmp("") + ".gz"
+		os.WriteFile(f, []byte(gz(statesTxt)), 0644)
+		args = append(args, "--states", f)
+	} else {
+		args = append(args, "--states", tmp(statesTxt))
+	}
+	if has(opts, "tree-stdin") && !has(opts, "states-stdin") {
+		stdin = nw.String()
+		if has(opts, "dash") {
+			args = append(args, "-i", "-")
+		}
+	} else {
+		args = append(args, "-i", tmp(nw.String()))
+	}
+	outt, outs, outr := "", "", ""
+	if has(opts, "o-file") {
+		outt = tmp("")
+		args = append(args, "-o", outt)
+	}
+	if has(opts, "steps-file") {
+		outs = tmp("")
+		args = append(args, "--out-steps", outs)
+	}
+	if has(opts, "states-out") {
+		outr = tmp("")
+		args = append(args, "--out-states", outr)
+	}
+	r := c.RunCLI(stdin, 30*time.Second, args...)
+	if r.Timeout {
+		fail("panic:timeout")
+		return
+	}
+	if strings.Contains(r.Stderr, "panic:") || strings.Contains(r.Stderr, "goroutine ") {
+		fail("panic:" + core.Escape(r.Stderr[:min(len(r.Stderr), 200)]))
+		return
+	}
+	if r.Exit != 0 {
+		fail("fail")
+		return
+	}
+	treesTxt, stepsTxt := "", ""
+	so := r.Stdout
+	if outt != "" {
+		treesTxt = readFile(outt)
+	}
+	if outs != "" {
+		stepsTxt = readFile(outs)
+	}
+	t2, s2 := splitOut(so)
+	if outt == "" {
+		treesTxt = t2
+	} else if t2 != "" {
+		fail("panic:tree-on-stdout")
+		return
+	}
+	if outs == "" {
+		stepsTxt = s2
+	} else if s2 != "" {
+		fail("panic:steps-on-stdout")
+		return
+	}
+	if r.Exit != 0 {
+		fail("fail")
+		return
+	}
+	if treesTxt == "" && stepsTxt == "" {
+		fail("silent")
+		return
+	}
+	dumps, ok := dumpsOfNewicks(treesTxt)
+	if !ok {
+		fail("panic:unreadable-output-tree")
+		return
+	}
+	statesOut := "-"
+	if outr != "" {
+		statesOut = core.Escape(readFile(outr))
+	}
+	c.Emit("C12.acrfull", append(in, "ok", core.Escape(stepsTxt), dumps, statesOut)...)
+}
+
+var algoSpellings = []string{"acctran", "ACCTRAN", "AccTran", "deltran", "DELTRAN", "DelTran", "downpass", "DownPass", "DOWNPASS", "none", "None", "fitch", "acctrans", ""}
+
+func sameTipTrees(g *core.G, k int) []*core.N {
+	o := treeOpts(g)
+	o.Singles = 0
+	o.MinTips = 4 + g.Intn(8)
+	o.MaxTips = o.MinTips
+	var ns []*core.N
+	for i := 0; i < k; i++ {
+		n, _ := g.Tree(o)
+		ns = append(ns, n)
+	}
+	return ns
+}
+
+func pickOpts(g *core.G, all []string, p float64) string {
+	var o []string
+	for _, x := range all {
+		if g.Chance(p) {
+			o = append(o, x)
+		}
+	}
+	return strings.Join(o, ",")
+}
+
+func cliAcrFullCase(c *core.Ctx) {
+	g := c.G
+	ns := sameTipTrees(g, 1+g.Intn(3))
+	k := 2 + g.Intn(3)
+	perm := g.R.Perm(len(statePool))
+	states := make([]string, k)
+	for j := range states {
+		states[j] = statePool[perm[j]]
+	}
+	tips := assign(g, ns[0].TipNames(), states)
+	keys, vals := sortedMap(tips)
+	var lines []string
+	for i, kk := range keys {
+		sep := "\t"
+		if g.Chance(0.4) {
+			sep = ","
+		}
+		if g.Chance(0.1) { // an earlier line for the same tip: the later one wins
+			lines = append(lines, kk+sep+statePool[g.Intn(len(statePool))])
+		}
+		lines = append(lines, kk+sep+vals[i])
+	}
+	if g.Chance(0.15) {
+		lines = append(lines, "zz"+"\t"+statePool[g.Intn(len(statePool))])
+	}
+	switch {
+	case g.Chance(0.05):
+		lines = append(lines, "a,b,c")
+	case g.Chance(0.04):
+		lines = append(lines[:1], append([]string{""}, lines[1:]...)...)
+	case g.Chance(0.04):
+		lines = append(lines, "lonely")
+	case g.Chance(0.04) && len(lines) > 2:
+		lines = lines[:len(lines)-1] // a tip without state (unless it was a duplicate)
+	}
+	algoS := algoSpellings[g.Intn(len(algoSpellings))]
+	if g.Chance(0.6) {
+		algoS = algoSpellings[g.Intn(9)]
+	}
+	opts := pickOpts(g, []string{"states-stdin", "tree-stdin", "dash", "gz", "o-file", "steps-file", "states-out", "no-final-newline"}, 0.4)
+	cliAcrFull(c, ns, lines, algoS, opts)
+}
+
+// cliAsrFull runs `gotree asr`: opts = align-stdin | tree-stdin, phylip, strict, o-file, log-file
+func cliAsrFull(c *core.Ctx, ns []*core.N, names, seqs []string, algoS, opts string) {
+	in := []string{core.Dumps(ns), core.StrList(names), core.StrList(seqs), core.Escape(algoS), opts}
+	fail := func(outcome string) { c.Emit("C12.asrfull", append(in, outcome, "", "")...) }
+	var nw strings.Builder
+	for _, n := range ns {
+		t, err := core.Build(n)
+		if err != nil {
+			panic(err)
+		}
+		nw.WriteString(t.Newick() + "\n")
+	}
+	var sb strings.Builder
+	if has(opts, "phylip") {
+		L := 0
+		if len(seqs) > 0 {
+			L = len(seqs[0])
+		}
+		fmt.Fprintf(&sb, " %d %d\n", len(names), L)
+		for i, nm := range names {
+			if has(opts, "strict") {
+				fmt.Fprintf(&sb, "%-10s%s\n", nm, seqs[i])
+			} else {
+				fmt.Fprintf(&sb, "%s  %s\n", nm, seqs[i])
+			}
+		}
+	} else {
+		for i, nm := range names {
+			fmt.Fprintf(&sb, ">%s\n%s\n", nm, seqs[i])
+		}
+	}
+	var files []string
+	tmp := func(content string) string {
+		f := c.TmpFile(content)
+		files = append(files, f)
+		return f
+	}
+	defer func() {
+		for _, f := range files {
+			os.Remove(f)
+		}
+	}()
+	args := []string{"asr", "--algo", algoS}
+	stdin := ""
+	if has(opts, "align-stdin") {
+		stdin = sb.String()
+	} else {
+		args = append(args, "-a", tmp(sb.String()))
+	}
+	if has(opts, "tree-stdin") && !has(opts, "align-stdin") {
+		stdin = nw.String()
+	} else {
+		args = append(args, "-i", tmp(nw.String()))
+	}
+	if has(opts, "phylip") {
+		args = append(args, "-p")
+		if has(opts, "strict") {
+			args = append(args, "--input-strict")
+		}
+	}
+	outt, outl := "", ""
+	if has(opts, "o-file") {
+		outt = tmp("")
+		args = append(args, "-o", outt)
+	}
+	if has(opts, "log-file") {
+		outl = tmp("")
+		args = append(args, "--log", outl)
+	}
+	r := c.RunCLI(stdin, 30*time.Second, args...)
+	if r.Timeout {
+		fail("panic:timeout")
+		return
+	}
+	if strings.Contains(r.Stderr, "panic:") || strings.Contains(r.Stderr, "goroutine ") {
+		fail("panic:" + core.Escape(r.Stderr[:min(len(r.Stderr), 200)]))
+		return
+	}
+	if r.Exit != 0 {
+		fail("fail")
+		return
+	}
+	treesTxt, logTxt := "", ""
+	t2, l2 := splitOut(r.Stdout)
+	if outt != "" {
+		treesTxt = readFile(outt)
+	} else {
+		treesTxt = t2
+	}
+	if outl != "" {
+		logTxt = readFile(outl)
+	} else {
+		logTxt = l2
+	}
+	dumps, ok := dumpsOfNewicks(treesTxt)
+	if !ok {
+		fail("panic:unreadable-output-tree")
+		return
+	}
+	c.Emit("C12.asrfull", append(in, "ok", core.Escape(logTxt), dumps)...)
+}
+
+func cliAsrFullCase(c *core.Ctx) {
+	g := c.G
+	ns := sameTipTrees(g, 1+g.Intn(3))
+	names := ns[0].TipNames()
+	sort.Strings(names)
+	L := 1 + g.Intn(4)
+	seqs := make([]string, len(names))
+	amb := g.Chance(0.5)
+	for i := range names {
+		b := make([]byte, L)
+		for j := range b {
+			b[j] = plainChars[g.Intn(1+g.Intn(4))]
+			if g.Chance(0.1) {
+				b[j] = '-'
+			}
+			if amb && g.Chance(0.2) {
+				b[j] = iupacChars[g.Intn(len(iupacChars))]
+			}
+		}
+		seqs[i] = string(b)
+	}
+	if g.Chance(0.05) && len(names) > 3 { // a tip without sequence
+		names, seqs = names[1:], seqs[1:]
+	}
+	algoS := algoSpellings[g.Intn(len(algoSpellings))]
+	if g.Chance(0.6) {
+		algoS = algoSpellings[g.Intn(9)]
+	}
+	opts := pickOpts(g, []string{"align-stdin", "tree-stdin", "phylip", "strict", "o-file", "log-file"}, 0.4)
+	cliAsrFull(c, ns, names, seqs, algoS, opts)
+}
+
+func parseDumps(s string) []*core.N {
+	var ns []*core.N
+	for _, d := range strings.Split(strings.TrimSuffix(s, "|"), "|") {
+		n, err := core.ParseDump(d)
+		if err != nil {
+			panic(err)
+		}
+		ns = append(ns, n)
+	}
+	return ns
 }
 
 // ---- replay ----
@@ -623,6 +1324,20 @@ func Replay(c *core.Ctx, lines []string) {
 		if len(f) < 5 {
 			continue
 		}
+		if f[0] == "C12.acrfull" {
+			if c.Gotree != "" {
+				a, _ := core.Unescape(f[3])
+				cliAcrFull(c, parseDumps(f[1]), parseList(f[2]), a, f[4])
+			}
+			continue
+		}
+		if f[0] == "C12.asrfull" && len(f) >= 6 {
+			if c.Gotree != "" {
+				a, _ := core.Unescape(f[4])
+				cliAsrFull(c, parseDumps(f[1]), parseList(f[2]), parseList(f[3]), a, f[5])
+			}
+			continue
+		}
 		n, err := core.ParseDump(f[1])
 		if err != nil {
 			panic(err)
@@ -632,17 +1347,43 @@ func Replay(c *core.Ctx, lines []string) {
 			continue
 		}
 		switch f[0] {
+		case "C12.acrr":
+			if len(f) >= 6 {
+				var seed int64
+				fmt.Sscan(f[5], &seed)
+				doAcrR(c, n, toMap(parseList(f[2]), parseList(f[3])), algo, seed)
+			}
+		case "C12.asrr", "C12.acrrcli", "C12.asrrcli":
+			if len(f) >= 6 {
+				var seed int64
+				fmt.Sscan(f[5], &seed)
+				switch {
+				case f[0] == "C12.asrr":
+					doAsrR(c, n, parseList(f[2]), parseList(f[3]), algo, seed)
+				case c.Gotree == "":
+				case f[0] == "C12.acrrcli":
+					cliAcrR(c, n, toMap(parseList(f[2]), parseList(f[3])), algo, seed)
+				default:
+					cliAsrR(c, n, parseList(f[2]), parseList(f[3]), algo, seed)
+				}
+			}
 		case "C12.acr":
 			doAcr(c, n, toMap(parseList(f[2]), parseList(f[3])), algo)
 		case "C12.asr":
-			doAsr(c, n, parseList(f[2]), parseList(f[3]), algo)
+			doAsr(c, n, parseList(f[2]), parseList(f[3]), algo, false)
+		case "C12.asrp":
+			doAsr(c, n, parseList(f[2]), parseList(f[3]), algo, true)
+		case "C12.asrpcli":
+			if c.Gotree != "" {
+				cliAsr(c, n, parseList(f[2]), parseList(f[3]), algo, false, true)
+			}
 		case "C12.acrcli":
 			if c.Gotree != "" {
 				cliAcr(c, n, toMap(parseList(f[2]), parseList(f[3])), algo)
 			}
 		case "C12.asrcli":
 			if c.Gotree != "" {
-				cliAsr(c, n, parseList(f[2]), parseList(f[3]), algo, false)
+				cliAsr(c, n, parseList(f[2]), parseList(f[3]), algo, false, false)
 			}
 		}
 	}
@@ -659,6 +1400,10 @@ func Run(c *core.Ctx) {
 	for i := 0; i < n; i++ {
 		if i%3 == 2 {
 			asrCase(c)
+		} else if i%12 == 1 {
+			acrRCase(c)
+		} else if i%12 == 7 {
+			asrRCase(c)
 		} else {
 			acrCase(c)
 		}
@@ -666,7 +1411,16 @@ func Run(c *core.Ctx) {
 	if c.Gotree != "" {
 		m := c.Scale(160, 2000)
 		for i := 0; i < m; i++ {
-			cliCase(c, i)
+			switch {
+			case i%8 == 2:
+				cliRCase(c, i/8)
+			case i%4 == 1:
+				cliAcrFullCase(c)
+			case i%4 == 3:
+				cliAsrFullCase(c)
+			default:
+				cliCase(c, i/2)
+			}
 		}
 	}
 }
